@@ -16,9 +16,28 @@ claim('C08',
       'get_internal_mods_by_index, randomizer module, EntryDb loader API.',
       'DESIGN.md section 4 C08')
 
-na('C06', 'every clause is a value relation over runtime integers and regex matches (which spans come out for given '
-          'sites, bounds and missed-cleavage counts); no structural necessary condition visible in the code shape; '
-          'deciding it needs execution or a solver, which is another technique family (DESIGN.md section 5)')
+claim('C06',
+      'option forwarding over the digest call graph, guards decided over the orderings of a span length against the '
+      'two bounds, affine normal forms of the missed-cleavage window, function specialisation under the semi / '
+      'complete_digestion switches, name-based backward slices of the yielded values',
+      'Decides ONLY the parts of C06 that are visible in the shape of the code and without which the value relation '
+      'cannot hold: the site finder applies its offset exactly once on every yield path; every option travels from '
+      'digest / digest_from_config / sequential_digest to build_spans and between the span builders bound to the '
+      'parameter of the same name, later sequential stages are re-based by the start of their parent; every length '
+      'test that guards a produced span keeps the closed interval [min_len, max_len] (lengths one below, at and one '
+      'above each bound); the end sites of a start site are the slice [i + 1 : i + missed_cleavages + 2] of the sorted, '
+      'de-duplicated site list closed with 0 and max_index, and the number reported with a span is its position in '
+      'that slice; the all-positions shortcut counts distinct sites and the non-specific builder reports 0; every '
+      'other value build_spans yields depends on missed_cleavages; under semi the strict spans within the bounds and '
+      'the left and right semi spans of the unbounded strict spans are yielded, a semi span keeps the shared end and '
+      'the number of its parent; partial digestion adds exactly (0, len, 0), complete digestion adds nothing.',
+      'Not decided (and not claimed): which integer triples come out -- the window arithmetic of the grouped semi '
+      'builders (de-duplication by the next shorter parent), bounds encoded in range() limits, regular-expression '
+      'semantics, output order; these are value relations over runtime integers and need execution or a solver '
+      '(seed C06-1, an off-by-one in that arithmetic, is out of reach and recorded as such). Known finding: the '
+      'all-positions shortcut ignores missed_cleavages for specific rules that together hit every position '
+      "(digest('KKK', ['lys-n', 'lys-c'], missed_cleavages=0)).",
+      'DESIGN.md section 10.11')
 
 claim('C02',
       'mode-flag forwarding + backward slices over the mass call graph, accumulator discipline, path polynomials '
